@@ -1,6 +1,6 @@
 From Coq Require Import ZArith List Bool Reals Lra.
 From Flocq Require Import Core BinarySingleNaN.
-Require Import GV.FloatBase GV.FloatLemmas GV.AngleM GV.GeonumM GV.CollM GV.OrderProofs GV.CollProofs.
+Require Import GV.FloatBase GV.FloatLemmas GV.AngleM GV.GeonumM GV.CollM GV.OrderProofs GV.CollProofs GV.AngleProofs GV.NewProofs GV.CtorProofs GV.GeonumProofs GV.DistValue GV.SumProofs.
 Import ListNotations.
 Open Scope R_scope.
 Require Import GV.Properties.C17.
@@ -36,3 +36,9 @@ Check C17_conversions : forall v : list geonum,
   cfrom v = v /\ cfrom_iter v = v /\ citer v = v /\ cinto_iter v = v /\ cas_ref v = v /\
   clen v = Z.of_nat (length v) /\ (cis_empty v = true <-> v = []).
 Print Assumptions C17_conversions.
+Check C17_total_value : forall c, fin (total_magnitude c) -> Forall (fun g => 0 <= R_ (mag g)) c ->
+  Rabs (R_ (total_magnitude c) - rsum c)
+    <= rsum c * ((1 + eps) ^ length c - 1) + INR (length c) * bpow radix2 (-1075) * ((1 + eps) ^ length c).
+Print Assumptions C17_total_value.
+Check C17_rsum_def : rsum [] = 0 /\ (forall g t, rsum (g :: t) = R_ (mag g) + rsum t) /\ eps = / 9007199254740992.
+Print Assumptions C17_rsum_def.
